@@ -303,6 +303,33 @@ def F17_stat_without_primary_records():
     return all(o[1] for o in out), "stat without primary records: %s" % (out,)
 
 
+def F18_contig_names_with_colon():
+    """contig names containing ':' (SN:Z:hap:1): unstable -> stable -> unstable round trip, index of the stable GAF, view -r hap:1:0-2"""
+    d = _tmp()
+    segs = [Seg("r1", "ACG", "ctg:A", 0, 0), Seg("r2", "TT", "ctg:A", 3, 0), Seg("r3", "GCA", "ctg:A", 5, 0), Seg("a1", "GG", "hap:1", 0, 1)]
+    links = [("r1", "+", "r2", "+", 0), ("r2", "+", "r3", "+", 0), ("r1", "+", "a1", "+", 0), ("a1", "+", "r3", "+", 0)]
+    g = Graph(segs, links)
+    g.write(d + "/g.gfa")
+    rec = gaf_record(g, [("r1", ">"), ("a1", ">"), ("r3", ">")], 1, 7, name="q1", cigar="6=", tags=("NM:i:0",))
+    write_lines(d + "/u.gaf", [rec])
+    rc, so, se = _cli(["view", d + "/u.gaf", "-g", d + "/g.gfa", "-f", "stable"])
+    if rc != 0 or so.split("\t")[5:9] != [">ctg:A:0-3>hap:1:0-2>ctg:A:5-8", "8", "1", "7"]:
+        return False, "to stable: rc=%d path columns %s %s" % (rc, so.split("\t")[5:9], (se.strip().splitlines() or [""])[-1][:120])
+    open(d + "/s.gaf", "w").write(so)
+    rc, so2, se = _cli(["view", d + "/s.gaf", "-g", d + "/g.gfa", "-f", "unstable"])
+    if rc != 0 or so2.rstrip("\n").split("\t") != rec:
+        return False, "back to unstable: rc=%d %s %s" % (rc, so2.split("\t")[5:9], (se.strip().splitlines() or [""])[-1][:120])
+    rc, _o, se = _cli(["index", d + "/s.gaf", d + "/g.gfa"])
+    if rc != 0:
+        return False, "index of the stable GAF: " + (se.strip().splitlines() or [""])[-1][:160]
+    keys = {k[0] for k in pickle.load(open(d + "/s.gaf.gvi", "rb")) if isinstance(k, tuple)}
+    if keys != {"r1", "a1", "r3"}:
+        return False, "indexed nodes %s (expected r1, a1, r3)" % sorted(keys)
+    rc, _o, se = _cli(["index", d + "/u.gaf", d + "/g.gfa"])
+    rc, so3, se = _cli(["view", d + "/u.gaf", "-g", d + "/g.gfa", "-r", "hap:1:0-2"])
+    return rc == 0 and so3.split("\t")[:1] == ["q1"], "view -r hap:1:0-2: rc=%d out=%r %s" % (rc, so3[:60], (se.strip().splitlines() or [""])[-1][:120])
+
+
 def F9d_mandatory_column_not_scanned():
     # read name that looks like a tag must not become an optional field
     al = _parse("ab:Z:x\t10\t0\t10\t+\t>r1>r2\t5\t0\t5\t5\t5\t60\tcg:Z:5=")
@@ -407,7 +434,7 @@ ALL = {k: v for k, v in list(globals().items()) if k[0] == "F" and k[1].isdigit(
 
 OWNER = {"F1": ["C03"], "F2a": ["C04"], "F2b": ["C04"], "F3a": ["C05"], "F3b": ["C05"], "F3c": ["C05"], "F4": ["C06"],
          "F5": ["C07"], "F6": ["C08"], "F7": ["C10"], "F8": ["C11", "C13"], "F8b": ["C11", "C13"], "F9a": ["C16"], "F9b": ["C16"],
-         "F9c": ["C19"], "F17": ["C19"], "F9d": ["C16"], "F9e": ["C02", "C16"], "F10a": ["C18"], "F10b": ["C18"], "F11": ["C20"]}
+         "F9c": ["C19"], "F17": ["C19"], "F18": ["C02", "C03", "C05"], "F9d": ["C16"], "F9e": ["C02", "C16"], "F10a": ["C18"], "F10b": ["C18"], "F11": ["C20"]}
 
 
 def for_property(pid):
